@@ -63,6 +63,11 @@ class CovariateDataframeDataReader(AbstractDataframeDataReader):
             Names of the columns headers of the dataframe that contains patients information
         """
         self.visit_reader._check_headers(columns)
+        missing_covariates = [c for c in self.covariate_names if c not in columns]
+        if missing_covariates:
+            raise LeaspyDataInputError(
+                f"Your dataframe must have the covariate column(s) {missing_covariates}."
+            )
 
     def _set_index(self, df: pd.DataFrame) -> pd.DataFrame:
         """
